@@ -59,7 +59,12 @@ TRUSTED = [
 ASSUMPTIONS = [
     "stored layouts are ORDINARY-run data (plain run id, chunks without subruns): the composed theorems rest on C07 rechunk_stream_partial / "
     "C03 roundtrip_rechunk_partial, which are proved for un-annotated streams, and are therefore named …_partial; super-run data is neither "
-    "generated nor covered (per-chunk processing of super-runs is refused by strax itself)",
+    "generated nor covered by the totality theorems (per-chunk processing of super-runs is refused by strax itself); the safety half (whenever the "
+    "operation returns and its result loads, the rows are the stored rows in order: copy_never_alters_rows, standalone_rechunk_never_alters_rows, "
+    "rechunk_on_load_never_alters_rows, per_chunk_merge_never_alters_rows, per_chunk_merge_grouping_independent) is proved for EVERY loadable "
+    "directory, super-run and annotated data included",
+    "translator: the plain-key test of merge_per_chunk_storage, _move_directories and the position of the dest-is-source guard / the move in "
+    "rechunker() are regenerated from /repo's AST into Generated/RechunkDecisions.lean on every run and proved equal to the model's (generated_*)",
     "metadata is compared with the model without the filesize flag (it depends on serial / executor saving); nbytes / filesize / compressor / "
     "target size are checked by the oracle against the real files",
     "rows are identified by an opaque id; bit-identity of all other bytes is checked by the oracle on the real arrays (4 dtypes in both tiers)",
@@ -76,6 +81,208 @@ ENCS = c03.ENCS
 RUN = "r"
 SRC, TGT = "src", "tgt"
 KIND = "things"
+
+# ----------------------------------------------------------------------------- translator (round 5)
+# Scalar decisions of the anchored source, re-translated from the Python AST of /repo on every run into
+# lean/StraxModel/Generated/RechunkDecisions.lean; Props/C16.lean proves them equal to the model's
+# (`generated_*` theorems), so a change of the source breaks a proof obligation:
+#   * merge_per_chunk_storage: the test that decides whether the merged data gets the PLAIN key
+#     (`min(...) == 0 and max(...) == len(chunks) - 1`)                 -> Generated.mergeDropsChunkNumber lo hi n
+#   * file_rechunker._move_directories: what is done to source / destination after saving  -> Generated.moveDirectories replace
+#   * file_rechunker.rechunker: the destination-is-source guard (fix D24) raises ValueError BEFORE the saver is
+#     created, and the directories are moved only AFTER the generator was exhausted        -> Generated.destGuardBeforeSaver / moveAfterSave
+
+class Untranslatable(Exception):
+    pass
+
+
+GENERATED_NAME = "RechunkDecisions"
+
+
+def _tr_int(e):
+    import ast
+    if isinstance(e, ast.Constant) and isinstance(e.value, int) and not isinstance(e.value, bool):
+        return str(e.value) if e.value >= 0 else f"({e.value})"
+    if isinstance(e, ast.UnaryOp) and isinstance(e.op, ast.USub):
+        return f"(-{_tr_int(e.operand)})"
+    if isinstance(e, ast.BinOp) and isinstance(e.op, (ast.Add, ast.Sub)):
+        return f"({_tr_int(e.left)} {'+' if isinstance(e.op, ast.Add) else '-'} {_tr_int(e.right)})"
+    if isinstance(e, ast.Call) and isinstance(e.func, ast.Name) and len(e.args) == 1 and not e.keywords \
+            and isinstance(e.args[0], ast.Name):
+        atom = {("min", "combined_chunk_numbers"): "lo", ("max", "combined_chunk_numbers"): "hi",
+                ("len", "chunks"): "n"}.get((e.func.id, e.args[0].id))
+        if atom:
+            return atom
+    raise Untranslatable(ast.dump(e)[:80])
+
+
+def _tr_test(e):
+    import ast
+    if isinstance(e, ast.BoolOp):
+        op = " ∨ " if isinstance(e.op, ast.Or) else " ∧ "
+        return "(" + op.join(_tr_test(v) for v in e.values) + ")"
+    if isinstance(e, ast.UnaryOp) and isinstance(e.op, ast.Not):
+        return f"(¬ {_tr_test(e.operand)})"
+    if isinstance(e, ast.Compare) and len(e.ops) == 1:
+        sym = {ast.Lt: "<", ast.LtE: "≤", ast.Gt: ">", ast.GtE: "≥", ast.Eq: "=", ast.NotEq: "≠"}.get(type(e.ops[0]))
+        if sym:
+            return f"({_tr_int(e.left)} {sym} {_tr_int(e.comparators[0])})"
+    raise Untranslatable(ast.dump(e)[:80])
+
+
+def _is_assign_none(st, name):
+    import ast
+    return (isinstance(st, ast.Assign) and len(st.targets) == 1 and isinstance(st.targets[0], ast.Name)
+            and st.targets[0].id == name and isinstance(st.value, ast.Constant) and st.value.value is None)
+
+
+def _tr_merge_key(tree):
+    """the `if <test>: _chunk_number = None else: _chunk_number = {...}` of merge_per_chunk_storage"""
+    import ast
+    fn = next((n for n in ast.walk(tree) if isinstance(n, ast.FunctionDef) and n.name == "merge_per_chunk_storage"), None)
+    if fn is None:
+        raise Untranslatable("merge_per_chunk_storage not found")
+    hits = [n for n in ast.walk(fn) if isinstance(n, ast.If) and len(n.body) == 1 and _is_assign_none(n.body[0], "_chunk_number")
+            and len(n.orelse) == 1 and isinstance(n.orelse[0], ast.Assign) and isinstance(n.orelse[0].value, ast.Dict)]
+    if len(hits) != 1:
+        raise Untranslatable(f"{len(hits)} candidates for the plain-key test")
+    return _tr_test(hits[0].test)
+
+
+def _call_name(e):
+    import ast
+    parts = []
+    while isinstance(e, ast.Attribute):
+        parts.append(e.attr)
+        e = e.value
+    if isinstance(e, ast.Name):
+        parts.append(e.id)
+        return ".".join(reversed(parts))
+    return None
+
+
+def _tr_move(tree):
+    """_move_directories(replace, source_directory, dest_directory, _temp_dir) -> op kinds issued when `replace`"""
+    import ast
+    fn = next((n for n in ast.walk(tree) if isinstance(n, ast.FunctionDef) and n.name == "_move_directories"), None)
+    if fn is None or [a.arg for a in fn.args.args] != ["replace", "source_directory", "dest_directory", "_temp_dir"]:
+        raise Untranslatable("_move_directories: signature")
+    branches = {"replace": None}
+    for st in fn.body:
+        if isinstance(st, ast.Expr) and isinstance(st.value, ast.Constant):
+            continue
+        if not (isinstance(st, ast.If) and isinstance(st.test, ast.Name) and not st.orelse):
+            raise Untranslatable("_move_directories: statement " + type(st).__name__)
+        ops = []
+        for b in st.body:
+            if not (isinstance(b, ast.Expr) and isinstance(b.value, ast.Call)):
+                raise Untranslatable("_move_directories: body " + type(b).__name__)
+            name = _call_name(b.value.func)
+            args = [a.id if isinstance(a, ast.Name) else "?" for a in b.value.args]
+            if name == "print":
+                continue
+            if name == "shutil.rmtree" and args == ["source_directory"]:
+                ops.append("rm")
+            elif name == "shutil.move" and args == ["dest_directory", "source_directory"]:
+                ops.append("mv")
+            elif name == "_temp_dir.cleanup" and not args and st.test.id == "_temp_dir":
+                continue          # removes the (by then empty) TemporaryDirectory; not a data directory
+            else:
+                raise Untranslatable(f"_move_directories: call {name}({', '.join(args)})")
+        if st.test.id == "replace":
+            if branches["replace"] is not None:
+                raise Untranslatable("_move_directories: two `if replace`")
+            branches["replace"] = ops
+        elif ops:
+            raise Untranslatable(f"_move_directories: data directories touched under `if {st.test.id}`")
+    ops = branches["replace"] or []
+    return "[" + ", ".join(f'"{o}"' for o in ops) + "]"
+
+
+def _tr_order(tree):
+    """statement order inside rechunker(): (guard raises ValueError before the saver exists, move after save)"""
+    import ast
+    fn = next((n for n in ast.walk(tree) if isinstance(n, ast.FunctionDef) and n.name == "rechunker"), None)
+    if fn is None:
+        raise Untranslatable("rechunker not found")
+
+    def calls(st):
+        return {_call_name(c.func) for c in ast.walk(st) if isinstance(c, ast.Call)} - {None}
+
+    def is_guard(st):
+        if not (isinstance(st, ast.If) and isinstance(st.test, ast.Compare) and len(st.test.ops) == 1
+                and isinstance(st.test.ops[0], ast.Eq) and not st.orelse):
+            return False
+        sides = [st.test.left, st.test.comparators[0]]
+        if not all(isinstance(x, ast.Call) and _call_name(x.func) == "os.path.realpath" and len(x.args) == 1
+                   and isinstance(x.args[0], ast.Name) for x in sides):
+            return False
+        if {x.args[0].id for x in sides} != {"dest_directory", "source_directory"}:
+            return False
+        r = st.body[-1]
+        exc = r.exc.func if isinstance(r, ast.Raise) and isinstance(r.exc, ast.Call) else getattr(r, "exc", None)
+        return isinstance(r, ast.Raise) and isinstance(exc, ast.Name) and exc.id == "ValueError" and len(st.body) == 1
+
+    idx = {"guard": None, "saver": None, "exhaust": None, "move": None, "dest": None}
+    for i, st in enumerate(fn.body):
+        if isinstance(st, ast.FunctionDef):
+            continue
+        c = calls(st)
+        if is_guard(st) and idx["guard"] is None:
+            idx["guard"] = i
+        if "backend._saver" in c and idx["saver"] is None:
+            idx["saver"] = i
+        if "_exhaust_generator" in c and idx["exhaust"] is None:
+            idx["exhaust"] = i
+        if "_move_directories" in c and idx["move"] is None:
+            idx["move"] = i
+        if "_get_dest_and_tempdir" in c:
+            idx["dest"] = i          # the LAST (re)definition of dest_directory must precede the guard
+    if idx["saver"] is None or idx["exhaust"] is None or idx["move"] is None:
+        raise Untranslatable("rechunker: saver / _exhaust_generator / _move_directories call not found at top level")
+    guard = idx["guard"] is not None and idx["dest"] is not None and idx["dest"] < idx["guard"] < idx["saver"]
+    move_after = idx["saver"] < idx["exhaust"] < idx["move"]
+    return ("true" if guard else "false"), ("true" if move_after else "false")
+
+
+def regen(ctx):
+    """Regenerate Generated/RechunkDecisions.lean from the current source of strax/context.py (merge_per_chunk_storage)
+    and strax/storage/file_rechunker.py (_move_directories, rechunker)."""
+    import ast
+    from lib.engine import LEAN, REPO
+    out = LEAN / "StraxModel" / "Generated" / f"{GENERATED_NAME}.lean"
+    parts = {}
+    failed = False
+    for name, path, f in [("merge_per_chunk_storage", REPO / "strax" / "context.py", _tr_merge_key),
+                          ("_move_directories", REPO / "strax" / "storage" / "file_rechunker.py", _tr_move),
+                          ("rechunker", REPO / "strax" / "storage" / "file_rechunker.py", _tr_order)]:
+        try:
+            parts[name] = f(ast.parse(path.read_text()))
+            ctx.translator[name] = "translated"
+        except (Untranslatable, SyntaxError, OSError) as e:
+            failed = True
+            ctx.translator[name] = f"untranslatable: {e}"
+            ctx.violation(f"translator:{name}", "translator", None, {"reason": str(e)},
+                          f"translator regenerates Generated.{GENERATED_NAME} from the source of {name}", False)
+    if failed:
+        return
+    guard, move_after = parts["rechunker"]
+    text = ("-- GENERATED by checks/props/c16.py:regen from /repo/strax/context.py (merge_per_chunk_storage) and\n"
+            "-- /repo/strax/storage/file_rechunker.py (_move_directories, rechunker). Do not edit.\n"
+            "import StraxModel.Model.Basic\n"
+            "namespace Strax.Generated\n"
+            "/-- `_chunk_number = None` (plain key) iff this holds; lo = min(combined), hi = max(combined), n = len(chunks) -/\n"
+            f"def mergeDropsChunkNumber (lo hi n : Int) : Bool :=\n  decide {parts['merge_per_chunk_storage']}\n"
+            "/-- directory-level operations of `_move_directories`, in order -/\n"
+            f"def moveDirectories (replace : Bool) : List String :=\n  if replace then {parts['_move_directories']} else []\n"
+            "/-- `rechunker`: realpath(dest) == realpath(source) raises ValueError after the destination is resolved and before the saver is created -/\n"
+            f"def destGuardBeforeSaver : Bool := {guard}\n"
+            "/-- `rechunker`: saver created, then the generator exhausted, then `_move_directories` -/\n"
+            f"def moveAfterSave : Bool := {move_after}\n"
+            "end Strax.Generated\n")
+    if not out.exists() or out.read_text() != text:
+        out.write_text(text)
+
 
 # ----------------------------------------------------------------------------- scratch space
 _ROOT = None
@@ -1040,6 +1247,26 @@ def search(ctx):
         cases[-1]["replace"] = 1 if cases[-1]["dest"] == "none" else cases[-1]["replace"]
         cases.append(base(rng, "rol", rol=1, source_size=rng.randint(1, 7), via="loader", proc="-", workers=1))
     ctx.check_oracle("search/oracle-only", cases, impl, oracle)
+    # the translated decisions (plain-key test of merge_per_chunk_storage, _move_directories, the dest-is-source guard):
+    # truncated / proper selections of per-chunk results, replace runs, destination = source
+    cases = []
+    for _ in range(120):
+        proto = base(rng, "merge", style=rng.choice(["tiny", "mixed"]), n_rows=rng.randint(2, 8))
+        n = len(proto["layout"])
+        if n < 2:
+            continue
+        cuts = sorted(rng.sample(range(1, n), rng.randint(1, min(n - 1, 3))))
+        sizes = [b - a for a, b in zip([0, *cuts], [*cuts, n])]
+        k = len(sizes)
+        sel = rng.choice([list(range(k)), list(range(rng.randint(1, k - 1), k)), list(range(0, rng.randint(1, k - 1)))])
+        cases.append(dict(proto, sizes=sizes, sel=sel, ros=rng.randint(0, 1), rechunk=rng.randint(0, 1), rechunk_to=rng.randint(1, 7),
+                          mod=rng.choice([2, 3]), tgt_target=rng.randint(1, 6), tgt_comp="blosc", dst_comp=None, proc="single_thread", workers=1))
+    for _ in range(40):
+        cases.append(base(rng, "rechunk", dst_comp=None, rechunk=rng.randint(0, 1), target=rng.randint(1, 7), replace=1,
+                          dest=rng.choice(["new", "none"]), parallel="serial"))
+        cases.append(base(rng, "rechunk", dst_comp=None, rechunk=1, target=rng.randint(1, 7), replace=0,
+                          dest=rng.choice(["parent", "self"]), parallel="serial"))
+    ctx.check_oracle("search/translated-decisions", cases, impl, oracle)
 
 
 def replay(ctx, body):
